@@ -48,10 +48,10 @@ def cases(tier, seed):
                         tssf=float(np.round(rng.choice([1.0, rng.uniform(0.5, 2.0)]), 3)), seed=int(rng.integers(1 << 30)), _cost=4))
     n = 4 if tier == "quick" else 90
     for k in range(n):
-        spec = M.random_spec(rng, half="left", nx=int(rng.integers(2, 4)), ny=int(rng.integers(3, 7)))
+        spec = zoo.sane_wing(M.random_spec(rng, half="left", nx=int(rng.integers(2, 4)), ny=int(rng.integers(3, 7))))
         out.append(dict(kind="coupled", surfaces=[dict(name="wing", symmetry=True, mesh=spec, fem_model_type="tube" if k % 2 else "wingbox",
                                                        exact_failure_constraint=bool(k % 3 == 0))],
-                        flow=dict(alpha=float(np.round(rng.uniform(-2, 8), 2)), v=float(rng.uniform(50, 250)), rho=float(rng.uniform(0.3, 1.2))), _cost=6))
+                        flow=dict(alpha=float(np.round(rng.uniform(-2, 8), 2)), v=float(rng.uniform(50, 160)), rho=float(rng.uniform(0.3, 0.8))), _cost=6))
     return out
 
 
